@@ -240,7 +240,8 @@ def fresh_digest(design, uid, repaired=None):
         return ("raised", sig_of(e))
 
 
-def continuations(rec, log, sess, design, uid, scenario, repair=None, repaired_design=None, apis=("retry-to_proto", "retry-elaborate")):
+def continuations(rec, log, sess, design, uid, scenario, repair=None, repaired_design=None, apis=("retry-to_proto", "retry-elaborate"),
+                  unrelated=None):
     import hdl21 as h
 
     top = sess.built.modules[design["top"]]
@@ -263,11 +264,15 @@ def continuations(rec, log, sess, design, uid, scenario, repair=None, repaired_d
             if name != design["top"]:
                 log.call("retry-offender-alone", "D", True, False, lambda name=name: h.to_proto(sess.built.modules[name]))
     # an unrelated design
-    U = unrelated_design()
-    uu = f"_u{next(_uid)}"
-    fresh["U"] = fresh_digest(U, uu)
-    su = Session(U, uu)
-    su.ensure([m["name"] for m in U["modules"]])
+    if unrelated is not None:  # the very objects that sat next to the faulty design in the failed list call
+        U, uu, su = unrelated
+        fresh["U"] = fresh_digest(U, uu)
+    else:
+        U = unrelated_design()
+        uu = f"_u{next(_uid)}"
+        fresh["U"] = fresh_digest(U, uu)
+        su = Session(U, uu)
+        su.ensure([m["name"] for m in U["modules"]])
     log.call("unrelated", "U", False, False, lambda: h.to_proto(su.built.modules[U["top"]]))
     # a new parent sharing the non-offending sub-modules (the SAME objects Good and Lf)
     SD = sharing_design(design)
@@ -328,7 +333,7 @@ def bomb_scenario(rec, design, position, target, variant):
     continuations(rec, log, sess, design, uid, scenario, repair=lambda: None, repaired_design=design, apis=("retry-to_proto",))
 
 
-def real_fault_scenario(rec, design, fault, variant, repair_mode="edit-offender"):
+def real_fault_scenario(rec, design, fault, variant, repair_mode="edit-offender", listmode=None):
     import hdl21 as h
 
     name, plant, repair_spec = fault
@@ -342,12 +347,23 @@ def real_fault_scenario(rec, design, fault, variant, repair_mode="edit-offender"
         rec.count("scenario.fault-rejected-at-construction")
         return
     scenario = {"source": "design-fault", "where": name, "offender": "Mid" if name != "extra-connection" else "Top", "design_variant": variant,
-                "repair": repair_mode}
+                "repair": repair_mode, "first_call": listmode or "single"}
     rec.case(key=jhash(scenario), nontrivial=True, sample=scenario if rec.evaluations % 60 == 1 else None)
     log = Log()
     top = sess.built.modules[bad["top"]]
     passmon.take_failed()
-    log.call("first", "D", True, False, lambda: h.to_proto(top))
+    unrelated = None
+    if listmode:
+        # the faulty design is exported in ONE list call together with an unrelated, valid design
+        U = unrelated_design()
+        uu = f"_lu{next(_uid)}"
+        su = Session(U, uu)
+        su.ensure([m["name"] for m in U["modules"]])
+        utop = su.built.modules[U["top"]]
+        unrelated = (U, uu, su)
+        log.call("first", "D", True, False, lambda: h.to_proto([utop, top] if listmode == "good-first" else [top, utop]))
+    else:
+        log.call("first", "D", True, False, lambda: h.to_proto(top))
     scenario["_offenders"] = passmon.take_failed()
     repair = None
     repaired_design = None
@@ -381,7 +397,7 @@ def real_fault_scenario(rec, design, fault, variant, repair_mode="edit-offender"
             mid2 = mb.finish()
             top.m0 = h.Instance(of=mid2)(k=top.j)
 
-    continuations(rec, log, sess, bad, uid, scenario, repair=repair, repaired_design=repaired_design)
+    continuations(rec, log, sess, bad, uid, scenario, repair=repair, repaired_design=repaired_design, unrelated=unrelated)
 
 
 def generator_scenario(rec, mode):
@@ -434,6 +450,23 @@ def generator_scenario(rec, mode):
     log = Log()
     if mode.startswith("direct"):
         log.call("generator-first", "G", True, False, lambda: G(w=2) and None)
+        log.call("generator-retry", "G", True, False, lambda: G(w=2) and None)
+    elif mode == "nested-caught":
+        # the outer generator catches the inner failure, falls back and completes: the inner call is over, not in flight
+        def outer_c(params: P) -> h.Module:
+            m = h.Module()
+            try:
+                inner = G(w=params.w)
+                m.add(h.Signal(width=params.w), name="s")
+                m.add(h.Instance(of=inner)(a=m.s), name="i")
+            except Injected:
+                m.add(h.Signal(width=params.w), name="fallback")
+            return m
+
+        outer_c.__name__ = f"OuterC{n}"
+        OC = h.generator(outer_c)
+        log.call("generator-first", "G", True, False, lambda: (OC(w=2), (_ for _ in ()).throw(Injected("generator body raised")))[0] and None)
+        scenario["body_runs_expected"] = 2
         log.call("generator-retry", "G", True, False, lambda: G(w=2) and None)
     else:  # called from inside another generator
         def outer(params: P) -> h.Module:
@@ -538,7 +571,8 @@ def run(ctx, rec):
             work.append(("real", d, fault, variant, "edit-offender"))
             if fault[0] != "extra-connection":
                 work.append(("real", d, fault, variant, "repoint-ancestor"))
-    for mode in ("direct", "nested", "unnameable", "direct-abort", "nested-abort"):
+            work.append(("real", d, fault, variant, "edit-offender", "good-first" if variant == 0 else "bad-first"))
+    for mode in ("direct", "nested", "nested-caught", "unnameable", "direct-abort", "nested-abort"):
         for _ in range(3):
             work.append(("gen", mode))
     fps = failpoint_lines()
@@ -556,7 +590,7 @@ def run(ctx, rec):
         if w[0] == "bomb":
             bomb_scenario(rec, w[1], w[2], w[3], w[4])
         elif w[0] == "real":
-            real_fault_scenario(rec, w[1], w[2], w[3], w[4])
+            real_fault_scenario(rec, w[1], w[2], w[3], w[4], w[5] if len(w) > 5 else None)
         elif w[0] == "gen":
             generator_scenario(rec, w[1])
         else:
